@@ -114,6 +114,7 @@ func isDimName(desc sim.ModelDescription, name string) bool {
 type drawMode struct {
 	kind string
 	rot  int
+	dims []int // when set: the value of every dimension parameter of parameter set c is dims[c % len(dims)]
 }
 
 var positions = []string{"lo", "zero", "inside", "hi", "default"}
@@ -193,6 +194,9 @@ func genParamSet(model string, desc sim.ModelDescription, rng *rand.Rand, shared
 				if mode.kind == "edge" && d < 3 {
 					d = 3 // room for a repeated interior breakpoint
 				}
+				if len(mode.dims) > 0 {
+					d = mode.dims[c%len(mode.dims)]
+				}
 				ps.dims[p.Name] = d
 				ps.scalars[p.Name] = float64(d)
 			} else if v, ok := shared[p.Name]; ok {
@@ -215,6 +219,11 @@ func genParamSet(model string, desc sim.ModelDescription, rng *rand.Rand, shared
 			acc := 0.0
 			if p.Name == "levels" || p.Name == "inputAmount" {
 				acc = 0
+			}
+			if len(mode.dims) > 0 && p.Name != "inputAmount" && p.Name != "minRelease" && p.Name != "maxRelease" && p.Name != "areas" {
+				// forced table sizes (degenerate sizes, one-row tables): the tables do not start at 0, so that a
+				// one-row table carries information (and the rows of different tables differ)
+				acc = step * (1 + float64(tj))
 			}
 			for k := range vals {
 				vals[k] = acc
